@@ -105,6 +105,13 @@ class ExprMixin:
     def binop(self, op, a, b, node=None):
         # concrete python values on both sides: let CPython do it
         if a.k == 'const' and b.k == 'const':
+            if isinstance(a.t, B.Items) and isinstance(b.t, B.Items) and op in ('Sub', 'BitOr', 'BitAnd', 'BitXor'):
+                # concrete sets (set(...) of concrete members): difference / union / intersection / symmetric difference by member key
+                ka, kb = {key_of(v): v for v in a.t.items}, {key_of(v): v for v in b.t.items}
+                keep = {'Sub': [k for k in ka if k not in kb], 'BitAnd': [k for k in ka if k in kb],
+                        'BitOr': list(ka) + [k for k in kb if k not in ka],
+                        'BitXor': [k for k in ka if k not in kb] + [k for k in kb if k not in ka]}[op]
+                return SV('const', B.Items([ka[k] if k in ka else kb[k] for k in keep]))
             return VC(B.py_binop(op, a.t, b.t))
         if (a.k == 'const' and isinstance(a.t, float) and b.k == 'int' and _conc_int(b.t) is not None) or \
            (b.k == 'const' and isinstance(b.t, float) and a.k == 'int' and _conc_int(a.t) is not None):
@@ -222,7 +229,13 @@ class ExprMixin:
     def opq_binop(self, op, a, b):
         f = self.ufunc('f' + op, OPQ, OPQ, OPQ)
         unknown = (a.k == 'opq' and a.x == 'unknown') or (b.k == 'opq' and b.x == 'unknown')
-        return SV('opq', f(self.as_opq(a), self.as_opq(b)), 'unknown' if unknown else None)
+        r = f(self.as_opq(a), self.as_opq(b))
+        if op == 'Mod' and a.k == 'opq' and a.x == 'float' and ((b.k == 'const' and b.t == 1 and not isinstance(b.t, bool)) or
+                                                                (b.k == 'int' and z3.is_int_value(b.t) and b.t.as_long() == 1)):
+            # X-FLOAT: x % 1 is non-zero exactly when x is not integral (inf and nan: nan, truthy, and not integral)
+            self.assume(self.ufunc('truthy', OPQ, BOOL)(r) == z3.Not(self.ufunc('float_is_integer', OPQ, BOOL)(a.t)))
+            return SV('opq', r, 'float')
+        return SV('opq', r, 'unknown' if unknown else None)
 
     def as_opq(self, v):
         if v.k == 'opq':
